@@ -9,7 +9,7 @@ import os
 import re
 import subprocess
 
-from .. import ktrans
+from .. import ktrans, ctrans
 from ..common import LEAN_DIR, REPO
 
 
@@ -17,8 +17,10 @@ def gen_prepare(ctx, theorems: list[str], covers: str):
     from ..framework import ALLOWED_AXIOMS
     names = ["Art.GenSpec." + t for t in theorems]
     ctx.extra_audit["obligations"] += len(names)
-    ctx.trusted.append("source-to-Lean translator harness/artv/ktrans.py (Python AST -> Lean definitions, regenerated on "
-                       "every run; fails closed on unsupported syntax); covers " + covers)
+    ctx.trusted.append("source-to-Lean translators harness/artv/ktrans.py (straight-line kernels, decision tables) and "
+                       "harness/artv/ctrans.py (statements: BaseART.step_fit with its while loop, inlined add_weight / set_weight / "
+                       "_set_params / _deep_copy_params); Python AST -> Lean definitions, regenerated on every run, fail closed on "
+                       "unsupported syntax; covers " + covers)
     with open(LEAN_DIR / ".gen.lock", "w") as lock:
         fcntl.flock(lock, fcntl.LOCK_EX)
         try:
@@ -27,14 +29,20 @@ def gen_prepare(ctx, theorems: list[str], covers: str):
             if not ok:
                 ctx.issue("audit", "obligation:GenSpec:translator", f"translator could not translate the source: {msg}")
                 return
+            ok, msg = ctrans.write(REPO)
+            ctx.log.append(f"ctrans: {msg}")
+            if not ok:
+                ctx.issue("audit", "obligation:ControlSpec:translator",
+                          f"the control-flow translator could not translate BaseART.step_fit: {msg}")
+                return
             p = subprocess.run(["lake", "build", "ArtGenProofs"], cwd=LEAN_DIR, capture_output=True, text=True)
             if p.returncode != 0:
                 errs = [l for l in (p.stdout + p.stderr).split("\n") if "error" in l][:6]
                 ctx.issue("audit", "obligation:GenSpec:build",
                           "definitions generated from the source are no longer provably equal to the model: " + " | ".join(errs)[:600],
-                          {"generated_file": "lean/ArtGen/Kernels.lean", "errors": errs})
+                          {"generated_files": ["lean/ArtGen/Kernels.lean", "lean/ArtGen/Control.lean"], "errors": errs})
                 return
-            src = "import ArtGenProofs.GenSpec\n" + "\n".join(f"#print axioms {n}" for n in names) + "\n"
+            src = "import ArtGenProofs.GenSpec\nimport ArtGenProofs.ControlSpec\n" + "\n".join(f"#print axioms {n}" for n in names) + "\n"
             tmp = LEAN_DIR / f".audit_gen_{os.getpid()}.lean"
             tmp.write_text(src)
             try:
@@ -55,4 +63,5 @@ def gen_prepare(ctx, theorems: list[str], covers: str):
                     ctx.issue("audit", "obligation:GenSpec:" + n, f"axioms {ax}")
         finally:
             if str(REPO) != "/repo":
-                ktrans.write("/repo")      # leave the committed generated file describing /repo
+                ktrans.write("/repo")      # leave the committed generated files describing /repo
+                ctrans.write("/repo")
